@@ -237,7 +237,15 @@ type node struct {
 }
 
 func derive(n node, attrs []slog.Attr) node {
-	return node{n.h.WithAttrs(attrs), append(append([]slog.Attr(nil), n.acc...), attrs...)}
+	// the slice handed to WithAttrs is the caller's (middlewares take it from a pool): it has spare capacity and is
+	// overwritten as soon as the call returns
+	given := append(make([]slog.Attr, 0, len(attrs)+2), attrs...)
+	h := n.h.WithAttrs(given)
+	for i := range given {
+		given[i] = slog.String("overwritten_by_caller", "x")
+	}
+	_ = append(given, slog.Int("appended_by_caller", 1), slog.Int("appended_by_caller", 2))
+	return node{h, append(append([]slog.Attr(nil), n.acc...), attrs...)}
 }
 
 func attrsN(n, salt int) []slog.Attr {
